@@ -215,6 +215,10 @@ def rule_callers(ctx: Ctx) -> None:
                 if isinstance(s.target, ast.Name) and s.target.id == src.id and isinstance(s.node, ast.Assign):
                     defs.append(ast.unparse(s.node.value))
         okd = bool(defs) and all("_bar_event_source" in d or "FifoQueueEventSource()" in d for d in defs)
+        if not isinstance(src, ast.Name) and src is not None:
+            # subscribed straight to an entry of the per-pair table
+            okd = (A.dotted(src.value) if isinstance(src, ast.Subscript) else "") == "self._bar_event_source" or \
+                (isinstance(src, ast.Call) and (A.call_name(src) or "") in ("self._bar_event_source.get", "self._bar_event_source.setdefault"))
         ctx.check(okd, "C03.3", "strategy bar handlers are subscribed to the derived per-pair source only", sub, c,
                   f"source defined by {defs}", "a strategy handler is subscribed to something other than the derived "
                   "source: it would see a bar before/while the exchange matches it")
@@ -350,8 +354,11 @@ def run(ctx: Ctx) -> None:
     # no look-ahead needs the whole batch of a timestamp to be drawn before any of its handlers runs: the multiplexer must hand out
     # every event that is due (shared with C12.3, reported here as C03.7)
     from . import c12
-    ctx.rule_map = {"C12.3": "C03.7"}
+    # the simulated clock (which the exchange reads for fills, interest, order events) shows the pass's time before any handler of the
+    # pass can start -- also when the pool is full and the push suspends (shared with C12.1, reported as C03.4)
+    ctx.rule_map = {"C12.3": "C03.7", "C12.1": "C03.4"}
     try:
+        c12.rule_clock(ctx)
         c12.rule_mux(ctx)
     finally:
         ctx.rule_map = {}
